@@ -38,6 +38,18 @@ def _field(rng, klass):
     nx = rng.randint(2, 6)
     j = rng.randint(-90, 90)
     unit = Fraction(2) ** j
+    if klass == 'nearconst':
+        # a large value with variations of a few float32 spacings (surface pressure in Pa over a calm domain, an epoch-like
+        # number): every element within 1e-6 of the first one, none of the variation may be dropped
+        base = rng.choice([101325, 5500000, 65536, 300000])
+        e = len(bin(base)) - 2 - 24                        # float32 spacing at that magnitude is 2**e
+        sp = Fraction(2) ** e
+        return [[Fraction(base) + sp * rng.randint(-6, 6) for _ in range(nx)] for _ in range(ny)]
+    if klass == 'tall':
+        # a tall grid with a steady trend down the first column (a latitude-like field on a fine grid)
+        ny, nx = rng.choice([340, 400, 721]), 2
+        st = rng.choice([100, 64, 37])
+        return [[Fraction(st * r + c * rng.randint(0, 3)) for c in range(nx)] for r in range(ny)]
     n = ny * nx
     if klass == 'const':
         vals = [rng.randint(-2000, 2000)] * n
@@ -95,6 +107,10 @@ def gen(rng, tier):
     out = []
     for i in range(n):
         klass = CLASSES[i % len(CLASSES)]
+        if i % 40 == 17:
+            klass = 'nearconst'
+        if i % 200 == 33:
+            klass = 'tall'
         rows = _field(rng, klass)
         case = dict(klass=klass, rows=[[lib.show_rat(x) for x in r] for r in rows])
         # what the caller hands to pack2d: float32 (as read from a file), float64 values that round to those float32
@@ -149,6 +165,11 @@ def _vardef_cases(rng, n):
             p10 = [x for x in (10, 100, 1000, 10000) if (style == 'm_high') == (x >= 9000)]
             if p10:
                 lv = sorted(set(lv[1:]) | {rng.choice(p10)}, reverse=(style == 'hpa'))
+        if rng.random() < 0.1:
+            # a level whose six-character text rounds up into a new leading digit (0.999996 -> 1.0000, 999.996 -> 1000.0)
+            x_ = rng.choice([Fraction(999996, 10 ** 6), Fraction(999996, 10 ** 5), Fraction(999996, 10 ** 4), Fraction(999996, 10 ** 3)])
+            if not any(abs(Fraction(y) - x_) < Fraction(1, 10) for y in list(lv) + [sfc]):     # two levels never share a text
+                lv = list(lv) + [x_]
         levels = [sfc] + [Fraction(x) for x in lv if Fraction(x) != sfc]
         keys = [rng.sample(VKEYS[:4], rng.randint(1, 3))] + [rng.sample(VKEYS[4:], rng.randint(1, 4)) for _ in levels[1:]]
         sums = [[rng.randint(0, 254) for _ in k] for k in keys]
@@ -178,7 +199,12 @@ def _oracle_vardef(case, res):
     if len(res['text']) > want or len(res['text']) < want - 1:
         return 'the level table has %d characters, 8 per level and 8 per variable make %d' % (len(res['text']), want)
     if res['levels'] != case['levels']:
-        return 'level list %s written and read back as %s' % (case['levels'], res['levels'])
+        # a level that the six-character field cannot hold exactly comes back as the nearest number the field can hold
+        def near(a, b):
+            a, b = Fraction(a), Fraction(b)
+            return a == b or (abs(a - b) <= abs(a) * Fraction(1, 10 ** 5) and abs(a - b) < Fraction(1, 100))
+        if len(res['levels']) != len(case['levels']) or not all(near(a, b) for a, b in zip(case['levels'], res['levels'])):
+            return 'level list %s written and read back as %s' % (case['levels'], res['levels'])
     if res['keys'] != case['keys'] or res['sums'] != case['sums']:
         return 'variable lists / checksums %s %s read back as %s %s' % (case['keys'], case['sums'], res['keys'], res['sums'])
     return None
